@@ -100,6 +100,11 @@ func monoOf(v ssa.Value, depth int) (monomial, bool) {
 		if strings.HasSuffix(calleeID(x), "/pocutil.RecordSize") {
 			return monomial{leaves: []string{"recordSize"}, k: 1}, true
 		}
+		if h := x.Call.StaticCallee(); h != nil && gNewFuncs[h] && h.Signature.Results().Len() == 1 {
+			if rets := returnsOf(h); len(rets) == 1 {
+				return monoOf(rets[0].Results[0], depth+1)
+			}
+		}
 		return monomial{leaves: []string{"call:" + shortID(calleeID(x))}, k: 1}, true
 	case *ssa.UnOp:
 		if x.Op == token.MUL {
@@ -145,6 +150,14 @@ func addTerms(v ssa.Value, out *[]ssa.Value, depth int) {
 			addTerms(x.X, out, depth+1)
 			addTerms(x.Y, out, depth+1)
 			return
+		}
+	case *ssa.Call:
+		// the position computed by a helper the reference tree does not have (`hm.windowPos(start)`)
+		if h := x.Call.StaticCallee(); h != nil && gNewFuncs[h] && h.Signature.Results().Len() == 1 {
+			if rets := returnsOf(h); len(rets) == 1 {
+				addTerms(rets[0].Results[0], out, depth+1)
+				return
+			}
 		}
 	case *ssa.Parameter:
 		if h := x.Parent(); h != nil && h.Parent() == nil && gNewFuncs[h] {
